@@ -194,3 +194,38 @@ wharness! {
         std::mem::forget(store);
     }
 }
+
+/// S-fin: `StoreHandle::finalize` without the rayon sort, for stores holding at most one value
+/// (where the sorted order is the insertion order): records the store index, assigns ids in
+/// order and marks the store finalized, exactly what the real finalize leaves for such a store.
+pub(crate) fn stub_store_finalize(h: &StoreHandle, idx: ValueStoreIdx) {
+    let mut guard = h.0.write().unwrap();
+    let b: &mut BaseValueStore = match &mut *guard {
+        ValueStore::Plain(s) => &mut s.0,
+        ValueStore::Indexed(s) => &mut s.0,
+    };
+    assert!(b.data.len() <= 1, "VERIF: S-fin is only valid for stores of at most one value");
+    b.idx = Some(idx);
+    if b.data.len() == 1 {
+        b.data[0].1 = 0;
+    }
+    b.finalized = true;
+}
+
+/// `StoreHandle::add_value` without the rayon-based duplicate search of the indexed store
+/// (removes the static edge to rayon; valid for the first value added to a store).
+pub(crate) fn stub_store_add_value(h: &StoreHandle, data: impl Into<Box<[u8]>>) -> ValueHandle {
+    let idx = {
+        let mut guard = h.0.write().unwrap();
+        match &mut *guard {
+            ValueStore::Plain(s) => s.0.add_value(data),
+            ValueStore::Indexed(s) => {
+                let data = data.into();
+                assert!(s.0.data.is_empty(), "VERIF: add_value stub is only valid for the first value");
+                s.0.size += data.len();
+                s.0.add_value(data)
+            }
+        }
+    };
+    ValueHandle::new(&h.0, idx)
+}
